@@ -384,6 +384,43 @@ def declaration_suite(ctx, corr):
                                      "two values share a location")
             n += 1
     corr.count("declaration", n)
+    # a value DERIVED from a declared one (a vendor bank re-using a coding) is a value of its own: it is decoded
+    # from its own locations, whatever was decoded through its parent before
+    from dali.memory import oem, info, diagnostics, energy
+    import random as _r
+    rr = _r.Random(11)
+    parents = [v for v in (getattr(oem, "ManufacturerGTIN", None), getattr(info, "GTIN", None),
+                           getattr(oem, "LuminaireColor", None), getattr(diagnostics, "LightSourceVoltage", None),
+                           getattr(info, "IdentificationNumber", None), getattr(energy, "ActiveEnergy", None))
+               if v is not None]
+    for parent in parents:
+        w = len(parent.locations)
+        p0 = parent.locations[0].address
+        img = [rr.randrange(1, 250) for _ in range(256)]
+        st0, before = outcome(lambda: parent.from_list(list(img)))
+        scratch = L.MemoryBank(241, 0xfe)
+        start = 0x80 if p0 < 0x60 else 0x10
+
+        def derive(par=parent, b=scratch, a0=start, n=w):
+            class Derived(par):
+                bank = b
+                locations = L.MemoryRange(a0, a0 + n - 1, default=0, type_=L.MemoryType.ROM)
+            return Derived
+        st, child = outcome(derive)
+        if st != "ok":
+            corr.violate("layout:derive", {"parent": parent.name}, "declared", child)
+            continue
+        moved = list(img)
+        moved[p0:p0 + w] = img[start:start + w]          # the child's own bytes, placed where the parent reads
+        st1, want = outcome(lambda: parent.from_list(moved))
+        st2, got = outcome(lambda: child.from_list(list(img)))
+        if (st1, repr(want)) != (st2, repr(got)):
+            corr.violate("layout:derived-value", {"parent": parent.name, "derived at": "0x%02x..0x%02x" % (start, start + w - 1),
+                                                  "bytes": img[start:start + w]},
+                         "%s %r" % (st1, want), "%s %r" % (st2, got),
+                         "a derived value must be decoded from its own locations")
+        n += 1
+    corr.count("derived", len(parents))
 
 
 def outcome(thunk):
